@@ -406,6 +406,7 @@ type hist struct {
 	// a write failed outside the read routine: the write semaphore is pending while
 	// Online is still released; lockWrite spins until ReadSlices notices
 	writeFailed bool
+	wasClosed   bool
 }
 
 func (h *hist) online() bool {
@@ -548,8 +549,34 @@ func (h *hist) doRead() {
 	default:
 		h.stats[fmt.Sprintf("read:err:%d", classOf(err))]++
 		h.record("OpRead", fmt.Sprintf("RetErr %d", classOf(err)))
+		if h.sc.r.chance(1, 2) {
+			h.readBackoff(err)
+		}
 	}
 	h.writeFailed = false
+}
+
+// readBackoff measures what ReadBackoff hands out, in virtual time.
+func (h *hist) readBackoff(err error) {
+	ch := h.client.ReadBackoff(err)
+	op := fmt.Sprintf("OpReadBackoff %d", classOf(err))
+	switch {
+	case ch == nil:
+		h.stats["backoff:nil"]++
+		h.record(op, "RetWait 1 0")
+	default:
+		select {
+		case <-ch:
+			h.stats["backoff:none"]++
+			h.record(op, "RetWait 0 0")
+			return
+		default:
+		}
+		t0 := time.Now()
+		<-ch
+		h.stats["backoff:timer"]++
+		h.record(op, fmt.Sprintf("RetWait 2 %d", time.Since(t0).Milliseconds()))
+	}
 }
 
 func (h *hist) adopt() {
@@ -565,6 +592,7 @@ func (h *hist) adopt() {
 		h.exch = map[int]<-chan error{}
 		h.bigMsg = nil
 		h.closed = false
+		h.wasClosed = false
 	}
 	h.stats["adopt"]++
 	if len(warn) != 0 {
@@ -597,8 +625,20 @@ func coqCfg(o seqOpts, cfg *mqtt.Config) string {
 		}
 		return n
 	}
-	return fmt.Sprintf("(mkScfg {| cfg_user := %s; cfg_pass := %s; cfg_will := %s; cfg_keepalive := %d; cfg_clean := %s |} %s %d %d %d)",
-		coqString(cfg.UserName), pass, will, cfg.KeepAlive, coqBool(cfg.CleanSession), coqBool(o.pause), norm(o.max1), norm(o.max2), o.bufSize)
+	// newClient's normalisation of the reconnect window
+	wmin, wmax := cfg.ReconnectWaitMin, cfg.ReconnectWaitMax
+	if wmin == 0 {
+		wmin = time.Second
+	}
+	if wmin < 0 {
+		wmin = 0
+	}
+	if wmax < wmin {
+		wmax = wmin
+	}
+	return fmt.Sprintf("(mkScfg {| cfg_user := %s; cfg_pass := %s; cfg_will := %s; cfg_keepalive := %d; cfg_clean := %s |} %s %d %d %d %d %d)",
+		coqString(cfg.UserName), pass, will, cfg.KeepAlive, coqBool(cfg.CleanSession), coqBool(o.pause), norm(o.max1), norm(o.max2), o.bufSize,
+		wmin.Milliseconds(), wmax.Milliseconds())
 }
 
 // runHistory plays one seeded history and returns the Coq term.
@@ -619,6 +659,8 @@ func runHistory(r *rng, o seqOpts, stats map[string]int) (term string, nontrivia
 	if o.pause {
 		h.cfg.PauseTimeout = time.Second
 	}
+	h.cfg.ReconnectWaitMin = []time.Duration{0, 50 * time.Millisecond, -1}[r.intn(3)]
+	h.cfg.ReconnectWaitMax = []time.Duration{0, 200 * time.Millisecond, 5 * time.Second}[r.intn(3)]
 	if r.chance(1, 3) {
 		h.cfg.UserName = "u"
 		if r.chance(1, 2) {
@@ -648,6 +690,9 @@ func runHistory(r *rng, o seqOpts, stats map[string]int) (term string, nontrivia
 		k := r.intn(100)
 		if h.writeFailed && (k >= 34 && k < 44 || k >= 70 && k < 84) {
 			k = 0 // requests would spin in lockWrite until ReadSlices runs
+		}
+		if !h.online() && !h.wasClosed && (k >= 34 && k < 44 || k >= 70 && k < 84) && r.chance(3, 4) {
+			k = 0 // mostly connect first
 		}
 		switch {
 		case k < 34:
@@ -760,13 +805,15 @@ func runHistory(r *rng, o seqOpts, stats map[string]int) (term string, nontrivia
 			// stay on a little to see ErrClosed everywhere
 			h.doRead()
 			h.doRead()
-			h.closed = r.chance(1, 2)
+			h.wasClosed = true
+			h.closed = r.chance(3, 4)
 		default:
 			err := h.client.Disconnect(make(chan struct{}))
 			h.stats["disconnect"]++
 			h.record("OpDisconnect", fmt.Sprintf("RetErr %d", classOf(err)))
 			h.doRead()
-			h.closed = r.chance(1, 2)
+			h.wasClosed = true
+			h.closed = r.chance(3, 4)
 		}
 	}
 
